@@ -310,6 +310,9 @@ T_("lokal", ["T", "R"], [("a", "T", False), ("b", "R", False)], "T", ["Das T x i
    [dict(T=a, R=b) for a in MAIN8 for b in ("Z", "T", "LT", "ZP")], lambda sg, a, b: (a, None), lambda sg: [V(sg["T"], 1), V(sg["R"])])
 
 
+DIAMOND = ("identi", "doppelt", "mitglobal")     # single-parameter templates also instantiated from two importing modules
+
+
 # ---- model-computed bindings ----------------------------------------------------------------------------------
 TPN = {"T": 7, "R": 8}
 GSETUP = ["GR", "GS 1 G#1", "GI 1 G#7", "GI 1 Z", "GI 1 T"]       # T-Paar = S#1000, Zahl-Paar = S#1001, Text-Paar = S#1002
@@ -369,6 +372,7 @@ def build(t, tuples, sigmas, generic, imported):
     """returns ({filename: text}, expected stdout lines).  sigmas[i] = model bindings for tuples[i]."""
     prog = Prog()
     decl_lines = []
+    mid_lines = []
     need = []
     for n in t.needs:
         if n != t.name:
@@ -410,8 +414,20 @@ def build(t, tuples, sigmas, generic, imported):
                 prog.show_list(rk[1], r, res)
             else:
                 prog.show(rk, r, res)
+            if imported == "diamond":
+                # the same instantiation is also requested by a second importing module (mid.ddp)
+                i = len(mid_lines)
+                k = keys[0]
+                mid_lines.append("Die öffentliche Funktion mitte%d mit dem Parameter a vom Typ %s, gibt %s zurück, macht:\n\tGib %s zurück.\nUnd kann so benutzt werden:\n\t\"mitte%d <a>\"\n"
+                                 % (i, U[k]["name"], tx_name(t.ret, want, "ret"), t.call(None if generic else {x: sg[x] for x in t.tparams}, ["a"]), i))
+                r2 = prog.fresh("r")
+                prog.lines.append("%s %s %s ist mitte%d %s." % (tx_name(t.ret, want, "art"), tx_name(t.ret, want, "name"), r2, i, names[0]))
+                prog.show(rk, r2, res)
     head = 'Binde "Duden/Ausgabe" ein.\n'
-    if imported:
+    if imported == "diamond":
+        files = {"decl.ddp": TYPE_DECLS[True] + "\n" + "\n".join(decl_lines), "mid.ddp": 'Binde "decl" ein.\n\n' + "\n".join(mid_lines),
+                 "main.ddp": head + 'Binde "decl" ein.\nBinde "mid" ein.\n\n' + "\n".join(prog.lines) + "\n"}
+    elif imported:
         files = {"decl.ddp": TYPE_DECLS[True] + "\n" + "\n".join(decl_lines), "main.ddp": head + 'Binde "decl" ein.\n\n' + "\n".join(prog.lines) + "\n"}
     else:
         files = {"main.ddp": head + "\n" + TYPE_DECLS[False] + "\n" + "\n".join(decl_lines) + "\n" + "\n".join(prog.lines) + "\n"}
@@ -436,7 +452,8 @@ def judge(t, tuples, placement, rg, rs, expect):
     if rg["stage"] != "ok" and rs["stage"] != "ok":
         return ("harness", "neither the generic nor the specialised program compiles (%s): %s" % (where, rs["out"][-300:]))
     if rg["stage"] != "ok":
-        return ("generic-rejected template=%s placement=%s" % (t.name, placement), "the generic call is rejected (%s) although its specialisation compiles and runs: %s" % (rg["stage"], rg["out"][-400:]))
+        cls = "symbol-multiply-defined" if "symbol multiply defined" in rg["out"] else "link" if rg["stage"] == "link" else "diagnostic"
+        return ("generic-rejected class=%s template=%s placement=%s" % (cls, t.name, placement), "the generic call is rejected (%s) although its specialisation compiles and runs: %s" % (rg["stage"], rg["out"][-400:]))
     if rs["stage"] != "ok":
         return ("specialisation-rejected template=%s placement=%s" % (t.name, placement), "the generic program is accepted although the program with the function specialised by textual replacement is rejected: %s" % rs["out"][-400:])
     if (rg["rc"], rg["stdout"]) != (rs["rc"], rs["stdout"]):
@@ -507,10 +524,12 @@ def main():
             # shared programs in both placements; isolated instantiations alternate between the placements
             for imported in ((False, True) if gname == "all" else ((gi % 2 == 0),)):
                 jobs.append((t, gname, tup, sgs, imported))
+            if gname == "all" and t.name in DIAMOND:
+                jobs.append((t, gname, tup, sgs, "diamond"))
 
     def run_job(job):
         t, gname, tup, sgs, imported = job
-        tag = "%s_%s_%s" % (t.name, gname, "imp" if imported else "same")
+        tag = "%s_%s_%s" % (t.name, gname, "dia" if imported == "diamond" else "imp" if imported else "same")
         fg, expect = build(t, tup, sgs, True, imported)
         fs, _ = build(t, tup, sgs, False, imported)
         rg = compile_run(b, root, tag + "_g", fg)
@@ -521,7 +540,7 @@ def main():
     n_inst = 0
     harness = []
     for (t, gname, tup, sgs, imported), fg, fs, rg, rs, expect in results:
-        placement = "importing-module" if imported else "declaring-module"
+        placement = "two-importing-modules" if imported == "diamond" else "importing-module" if imported else "declaring-module"
         ck.count(len(tup))
         n_inst += len(tup)
         v = judge(t, tup, placement, rg, rs, expect)
@@ -582,7 +601,7 @@ def main():
             ck.nontrivial(("neg", desc))
     ck.cov.update(dict(
         templates=len(TEMPLATES), instantiations_per_placement=sum(len(t.tuples) for t in TEMPLATES.values()), program_pairs=len(jobs), instantiations_run=n_inst,
-        placements=["declaring-module", "importing-module"], conflict_calls=len(neg), conflict_calls_rejected=n_rej,
+        placements=["declaring-module", "importing-module", "two-importing-modules (identi, doppelt, mitglobal)"], conflict_calls=len(neg), conflict_calls_rejected=n_rej,
         typelevel=dict(scenarios=tl["scenarios"], answers=tl["lines"], stats=tl["stats"]),
         exhaustive=False,
         exhaustive_legs=["every template x every applicable tuple over {Zahl, Kommazahl, Text, Buchstabe, Zahlen Liste, Text Liste, Punkt, Zahl-Paar} (two-parameter templates: all 64 / 32 pairs) x both placements",
